@@ -170,7 +170,7 @@ func parseSigned(s string) *big.Int {
 // C01 ops on raw Montgomery limbs
 func (f *fieldImpl[T, PT, V, PV]) Op(op string, a []string) string {
 	var z, x, y T
-	if len(a) > 0 && !strings.HasPrefix(op, "v") && op != "batchinv" {
+	if len(a) > 0 && !strings.HasPrefix(op, "v") && op != "batchinv" && op != "select" {
 		x = f.arg(a[0])
 	}
 	if len(a) > 1 && !strings.HasPrefix(op, "v") && op != "exp" && op != "select" {
@@ -265,6 +265,20 @@ func (f *fieldImpl[T, PT, V, PV]) Op(op string, a []string) string {
 		va, vb := f.vec(a[0]), f.vec(a[1])
 		r := make(V, len(va))
 		switch op {
+		case "vadd":
+			PV(&r).Add(va, vb)
+		case "vsub":
+			PV(&r).Sub(va, vb)
+		default:
+			PV(&r).Mul(va, vb)
+		}
+		return f.outVec(r)
+	case "valign": // valign <off> <vadd|vsub|vmul> a b : operands and result are sub-slices starting at element <off>
+		off := int(parseBig(a[0]).Int64())
+		mk := func(v V) V { w := make(V, len(v)+off); copy(w[off:], v); return w[off:] }
+		va, vb := mk(f.vec(a[2])), mk(f.vec(a[3]))
+		r := mk(make(V, len(va)))
+		switch a[1] {
 		case "vadd":
 			PV(&r).Add(va, vb)
 		case "vsub":
